@@ -400,6 +400,7 @@ func relevant(id string, prop string, spec *HarnessSpec) bool {
 }
 
 type harnessRun struct {
+	skipped bool
 	name string
 	spec *HarnessSpec
 	res  *sx.Result
@@ -485,6 +486,8 @@ func cmdCheck(args []string) int {
 	if len(runs) == 0 {
 		return fail("no harness serves this property in tier " + *tier)
 	}
+	// fail-fast (seeded-change evaluation only): the first harness that finds a violation ends the others
+	failFast := os.Getenv("VERIF_FAIL_FAST") != ""
 	sem := make(chan struct{}, *workers)
 	var wg sync.WaitGroup
 	for _, r := range runs {
@@ -493,7 +496,14 @@ func cmdCheck(args []string) int {
 			defer wg.Done()
 			sem <- struct{}{}
 			defer func() { <-sem }()
+			if failFast && sx.AbortAll.Load() {
+				r.skipped = true
+				return
+			}
 			r.res, r.err = runHarnessSeeded(ld, r.name, r.spec, *tier, seed)
+			if failFast && r.err == nil && r.res != nil && len(r.res.Violations) > 0 {
+				sx.AbortAll.Store(true)
+			}
 		}(r)
 	}
 	wg.Wait()
@@ -512,6 +522,10 @@ func cmdCheck(args []string) int {
 	totalPaths, totalQueries := 0, 0
 	obTotal, obReached := 0, 0
 	for _, r := range runs {
+		if r.skipped {
+			inconclusive = append(inconclusive, r.name+": not run (fail-fast mode)")
+			continue
+		}
 		if r.err != nil {
 			inconclusive = append(inconclusive, r.name+": "+r.err.Error())
 			continue
